@@ -894,10 +894,9 @@ impl WmoParser {
         version: WmoVersion,
         header: &WmoHeader,
     ) -> Result<Option<String>> {
-        // Skybox was introduced in WotLK
-        if !version.supports_feature(WmoFeature::SkyboxReferences) {
-            return Ok(None);
-        }
+        // Skybox was introduced in WotLK, but every version from Classic to MoP stores 17 in
+        // MVER, so the parsed version cannot tell them apart: rely on the flag and the chunk.
+        let _ = version;
 
         // Check if this WMO has a skybox
         if !header.flags.contains(WmoFlags::HAS_SKYBOX) {
